@@ -252,6 +252,7 @@ def file_hash(paths):
 
 def ensure_model_run():
     """Extract the Coq model and build extract/model_run.ml into .cache/model_run."""
+    regenerate()
     with flock("ml"):
         srcs = [p for p in coq_sources() if "/Props/" not in p and "/Proofs" not in p]
         srcs.append(os.path.join(VERIF, "extract", "model_run.ml"))
